@@ -89,6 +89,18 @@ Definition chk_public
   | Some r => res_beq (wdict_close tolx tols) (res_map final_sort r) e
   end.
 
+(* generate_qpd_weights(bases, N) from the COEFFICIENTS of the bases (dyadic, signs arbitrary, sum of magnitudes a
+   power of two): probabilities = |c| / kappa inside the model *)
+Definition chk_public_coeffs
+  (c : list (list Q) * list (list nat) * num * list nat * (Q * Q * Q) * res wdict) : bool :=
+  let '(bases, perms, N, tape, tols3, e) := c in
+  let '(tolx, tols, tolc) := tols3 in
+  sorting_perms_b (map basis_probs bases) perms &&
+  match generate_qpd_weights bases perms N tape with
+  | None => false
+  | Some r => res_beq (wdict_close tolx tols) r e
+  end.
+
 (* the same through real gate bases (inexact binary64): near-ties in the sort key may legitimately be ordered
    differently by rounded and by exact weights, so the result is compared as a SET of entries (keys are distinct);
    the order is compared exactly on the dyadic public stream above *)
